@@ -45,7 +45,11 @@ fn conc_candidates(focus: SF) -> &'static Vec<u32> {
     static B: OnceLock<Vec<u32>> = OnceLock::new();
     match focus {
         SF::C17 | SF::C18 => A.get_or_init(|| static_corpus().funcs.iter().filter(|d| d.family == "conc").map(|d| d.id).collect()),
-        SF::C03 | SF::C15 => B.get_or_init(|| static_corpus().funcs.iter().filter(|d| d.family == "concu").map(|d| d.id).collect()),
+        SF::C03 => B.get_or_init(|| static_corpus().funcs.iter().filter(|d| d.family == "concu").map(|d| d.id).collect()),
+        SF::C15 => {
+            static C: OnceLock<Vec<u32>> = OnceLock::new();
+            C.get_or_init(|| static_corpus().funcs.iter().filter(|d| matches!(d.family, "concu" | "conc")).map(|d| d.id).collect())
+        }
     }
 }
 
@@ -175,6 +179,8 @@ pub struct SchedRun {
     /// versions used per (fn index, key)
     pub versions: BTreeMap<(u8, u8), Vec<u32>>,
     pub calls_total: BTreeMap<u8, u64>,
+    /// body executions during the sequential prefix, per function
+    pub prefix_execs: BTreeMap<u8, u64>,
 }
 
 pub fn execute(case: &SchedCase, trace: bool) -> SchedRun {
@@ -189,12 +195,14 @@ pub fn execute_opts(case: &SchedCase, opts: vsched::Opts) -> SchedRun {
     warm_up(&corpus, &descs);
     let mut versions: BTreeMap<(u8, u8), Vec<u32>> = BTreeMap::new();
     let mut calls_total: BTreeMap<u8, u64> = BTreeMap::new();
+    let mut prefix_execs: BTreeMap<u8, u64> = BTreeMap::new();
     let mut ver = 0u32;
     fastrand::seed(hash_of(case) | 1);
     for (f, k) in &case.prefix {
         ver += 1;
         let fi = *f as usize % descs.len();
-        let _ = plain_call(&corpus, descs[fi], *k, ver);
+        let (_, ex) = plain_call(&corpus, descs[fi], *k, ver);
+        *prefix_execs.entry(fi as u8).or_default() += ex as u64;
         versions.entry((fi as u8, *k)).or_default().push(ver);
         *calls_total.entry(fi as u8).or_default() += 1;
     }
@@ -263,7 +271,7 @@ pub fn execute_opts(case: &SchedCase, opts: vsched::Opts) -> SchedRun {
     }
     let report = vsched::run(bodies, &case.decisions, opts);
     let recs = recs.lock().unwrap().clone();
-    SchedRun { report, recs, versions, calls_total }
+    SchedRun { report, recs, versions, calls_total, prefix_execs }
 }
 
 fn flavour_name(d: &FnDesc) -> &'static str {
@@ -538,12 +546,7 @@ pub fn judge(case: &SchedCase, focus: SF, explicit: Option<bool>) -> CaseOut {
             for (fi, d) in descs.iter().enumerate() {
                 let calls = run.calls_total.get(&(fi as u8)).copied().unwrap_or(0);
                 let execs: u64 = run.recs.iter().filter(|r| matches!(&r.op, SOp::Call { f, .. } if *f as usize % descs.len() == fi)).map(|r| r.executed as u64).sum::<u64>()
-                    + case.prefix.iter().filter(|(pf, _)| *pf as usize % descs.len() == fi).count() as u64
-                    - {
-                        // prefix calls that hit
-                        let mut seen = BTreeSet::new();
-                        case.prefix.iter().filter(|(pf, pk)| *pf as usize % descs.len() == fi && !seen.insert(*pk)).count() as u64
-                    };
+                    + run.prefix_execs.get(&(fi as u8)).copied().unwrap_or(0);
                 if let Some((h, m)) = stats_of(d.cache_name) {
                     if h + m != calls || m != execs {
                         out.violation = Some(Violation {
